@@ -518,3 +518,23 @@ Proof.
   rewrite !tag_first_irrelevant by (now apply vtable_stable).
   now rewrite !(lookup_perm _ _ _ Hnd Hp).
 Qed.
+
+(* without a tag member the adjacently tagged visitor fails, duplicates or not *)
+Lemma adj_no_tag : forall m tag content vt ms,
+  ~ In tag (keys ms) -> adj_map m tag content vt ms = None.
+Proof.
+  intros m tag content vt ms Hno. unfold adj_map.
+  assert (Hnr : forall ms, ~ In tag (keys ms) ->
+            next_rel tag content ms = None \/
+            exists c rest, next_rel tag content ms = Some (false, c, rest) /\ ~ In tag (keys rest)).
+  { clear. induction ms as [| [k v] ms IH]; intros Hno; [now left |].
+    cbn [next_rel]. cbn [keys map fst In] in Hno.
+    destruct (String.eqb k tag) eqn:E.
+    - apply String.eqb_eq in E. subst. exfalso. apply Hno. now left.
+    - destruct (String.eqb k content).
+      + right. exists v, ms. split; [reflexivity |]. intros H. apply Hno. now right.
+      + apply IH. intros H. apply Hno. now right. }
+  destruct (Hnr ms Hno) as [-> | (c & rest & -> & Hrest)]; [reflexivity |].
+  destruct (Hnr rest Hrest) as [-> | (c2 & rest2 & -> & _)]; reflexivity.
+Qed.
+
